@@ -24,6 +24,7 @@ LEN_MAX = 2**63 - 1
 LEN_CALLS = ("core::slice::<impl [T]>::len", "alloc::vec::Vec::<T, A>::len", "alloc::string::String::len",
              "core::str::<impl str>::len")
 INDEX = ("core::ops::index::Index::index", "core::ops::index::IndexMut::index_mut")
+SPLIT_AT = ("core::slice::<impl [T]>::split_at", "core::slice::<impl [T]>::split_at_mut")
 CONTRACTED = ("zvt_builder::encoding::Encoding::decode", "zvt_builder::length::Length::deserialize",
               "zvt_builder::ZvtSerializerImpl::deserialize_tagged", "zvt_builder::ZvtSerializer::zvt_deserialize")
 LEN_PRESERVING_MUT = ("core::ops::index::IndexMut::index_mut", "core::ops::deref::DerefMut::deref_mut",
@@ -502,6 +503,12 @@ class Prover:
                         return bl.add(self.lin(rng[2][0]), -1)
                     if rng[1].endswith("Range::Range"):
                         return self.lin(rng[2][1]).add(self.lin(rng[2][0]), -1)
+            # split lemma: s.split_at(m) = (s[..m], s[m..])
+            if x[0] == "proj" and x[1][0] == "call" and x[1][1] in SPLIT_AT and len(x[1][2]) == 2 and x[2] in (("0",), ("1",)):
+                base, mid = x[1][2]
+                if x[2] == ("0",):
+                    return self.lin(mid)
+                return self.lin(("call", LEN_CALLS[0], (base,), None, ())).add(self.lin(mid), -1)
             vl = self.vec_len(x)
             if vl is not None:
                 return vl
@@ -1019,6 +1026,12 @@ def check_site(pr, s, assumed=None):
             if not ok:
                 return False, "start >= 0: " + w
         return True, "range within length"
+    if kind == "split_at":
+        # s.split_at(mid) panics iff mid > len(s)
+        base = vx.operand(t["args"][0], bb)
+        mid = vx.operand(t["args"][1], bb)
+        ok, w = pr.prove_nonneg(len_of(pr, base).add(pr.lin(mid), -1), bb)
+        return (True, "mid <= len: " + w[:80]) if ok else (False, "split point may exceed the length: " + w)
     if kind == "unwrap":
         arg = vx.operand(t["args"][0], bb)
         a = strip_ref(arg)
@@ -1314,6 +1327,37 @@ def accumulator_ok(pr, s, crates):
     return True, "accumulator <= %d*(%d^N-1)/%d fits %s for every N (%s)" % (info["dmax"], info["c1"], info["c1"] - 1, info["ty"], src)
 
 
+def _on_infeasible_try_into_err(pr, bb):
+    """Block bb lies behind the Err edge of `try_into::<[u8; N]>(s)` where len(s) == N is provable at the
+    test: that edge cannot be taken (the conversion fails only on a length mismatch)."""
+    b, vx = pr.b, pr.vx
+    for sw in sorted(b.reachable(0)):
+        t = b.blocks[sw]["term"]
+        if t["t"] != "switch":
+            continue
+        e = vx.operand(t["d"], sw)
+        if e[0] != "discr":
+            continue
+        inner = strip_ref(e[1])
+        if not (inner[0] == "call" and inner[1] == "core::convert::TryInto::try_into"):
+            continue
+        ga = inner[4] if len(inner) > 4 else ()
+        tgt = ga[1] if len(ga) > 1 else ""
+        if not (tgt.startswith("[u8; ") and tgt[5:-1].isdigit()):
+            continue
+        n = int(tgt[5:-1])
+        err_t = dict((v, tb) for v, tb in t["targets"]).get(1, t["else"])
+        if err_t is None or not (b.dominates(err_t, bb) and pr.edge_dominates(sw, err_t, bb)):
+            continue
+        L = len_of(pr, inner[2][0])
+        at = inner[3] if len(inner) > 3 and isinstance(inner[3], int) else sw
+        ok1, _ = pr.prove_nonneg(L.add(Lin(n), -1), at)
+        ok2, _ = pr.prove_nonneg(Lin(n).add(L, -1), at)
+        if ok1 and ok2:
+            return True
+    return False
+
+
 def ok_when_len_ge(body_id, crates, depth=0, memo=None):
     """Smallest K such that the decoder `body_id(bytes)` returns Ok whenever len(bytes) >= K
     (None if it cannot be established).  Err returns must be (a) explicit Err under a fact
@@ -1343,6 +1387,8 @@ def ok_when_len_ge(body_id, crates, depth=0, memo=None):
                         best = c_
                         break
                 if best is None:
+                    if _on_infeasible_try_into_err(pr, i):
+                        continue
                     return None
                 K = max(K, best + 1)
         t = body.blocks[i]["term"]
